@@ -8,7 +8,8 @@
      PB   <s> | <p> | <tid> <x>                    ParentBased{counting(s)}: result, #delegate calls, s's own result
      MONO <bits1> <bits2> <tid>                    two ratio samplers on one trace id
      DEP  <bits> <tid> | <p> <x> | <p> <x>         two samplers of one ratio, one id, different other arguments
-     SPAN <s> | <p> | <gen tid> <random 0|1> <x>   Tracer::StartSpan with options.parent = p
+     SPAN <s> | <p> | <gen tid> <random 0|1> <x>   Tracer::StartSpan with options.parent = p; then, on a second tracer with the same
+                                                   sampler, a root span whose generated trace id is the first span's trace id
      DESC <s>                                      GetDescription()                                        *)
 From V Require Export C12.Spec.
 Local Open Scope Z_scope.
@@ -139,7 +140,9 @@ Definition run_model (l : list tok) : list tok :=
        print_decision (ratio_decide (calc_threshold r1) tid); print_decision (ratio_decide (calc_threshold r2) tid)]
   | Some (CDep r tid p1 x1 p2 x2) =>
       print_result (should_sample (SRatio r) p1 tid x1) ++ print_result (should_sample (SRatio r) p2 tid x2)
-  | Some (CSpan s p g rnd x) => print_started (start_span s p g rnd x)
+  | Some (CSpan s p g rnd x) =>
+      let st := start_span s p g rnd x in
+      print_started st ++ [TZ (st_flags (start_span s ctx_invalid (st_tid st) rnd x))]
   | Some (CDesc s) => match description s with Some d => [TB d] | None => [tag "UNMODELLED"] end
   | None => bad_case
   end.
@@ -216,7 +219,14 @@ Definition run_spec (l obs : list tok) : list tok :=
       | _ => fail "obs:unparsable"
       end
   | Some (CSpan s p g rnd x) =>
-      match parse_started obs with Some o => spec_start_span s p g o | None => fail "obs:unparsable" end
+      match obs with
+      | [a; b; c; d; TZ root_flags] =>
+          match parse_started [a; b; c; d] with
+          | Some o => spec_start_span s p g o ++ spec_participants s o root_flags
+          | None => fail "obs:unparsable"
+          end
+      | _ => fail "obs:unparsable"
+      end
   | Some (CDesc s) => match obs with [_] => [] | _ => fail "obs:unparsable" end   (* the description is not part of the property: correspondence only *)
   | None => bad_case
   end.
